@@ -84,7 +84,9 @@ func (j *jsonproto) Pack(m erpc.Message) error {
 	bb.Write(msg2)
 	bb.WriteString(strconv.FormatInt(int64(m.Mtype()), 10))
 	bb.Write(msg3)
-	bb.WriteString(strconv.Quote(m.ServiceMethod()))
+	bb.WriteByte('"')
+	bb.Write(escapeBody(goutil.StringToBytes(m.ServiceMethod())))
+	bb.WriteByte('"')
 	bb.Write(msg4)
 	bb.WriteString(strconv.Quote(m.Status(true).QueryString()))
 	bb.Write(msg5)
